@@ -60,6 +60,27 @@ def setup(shard):
 
 _STATE = {"shard": 0, "terminator": None}
 
+PENUMBRA_KEY = "C10/penumbra-uses-umbra-half-angle"
+
+
+def finding_active(key):
+    from .. import findings
+
+    findings._load()
+    return key in (findings._active or {}).get("C10", ())
+
+
+def _penumbra_finding(facet, case, kind, msg, data):
+    """LightListener('penumbra') builds the penumbra cone with the umbra half-angle.  Pinned to: shadow
+    facet, a penumbra event too far from the conical penumbra boundary, *and* lying within 0.01 s of the
+    zero of the same cone evaluated with asin((Rs - Rb)/d) - exactly what the library computes."""
+    off = (data or {}).get("off_wrong_angle")
+    return (facet == "shadow" and kind == "shadow-penumbra" and off is not None and math.isfinite(off)
+            and off <= 0.01)
+
+
+FINDINGS = {PENUMBRA_KEY: _penumbra_finding}
+
 # ------------------------------------------------------------------ generators
 
 LISTENER_KINDS = ["node", "apside", "anomaly", "light", "terminator"]
@@ -434,6 +455,8 @@ class G:
             "radial": (1e-4, 1e-7),
         }[k]
         self.cond_eps = 1e-8  # on the elevation used by a visibility condition
+        self.wrong_angle = False
+        self.skip_known_band = k == "light" and spec.get("type") == "penumbra" and finding_active(PENUMBRA_KEY)
 
     def value(self, sv):
         k = self.kind
@@ -453,8 +476,16 @@ class G:
             c = cart_in(sv, frame, self.native)
             s = sun_pos(sv, frame)
             rb, rs = radii()
-            fn = osh.umbra if self.spec["type"] == "umbra" else osh.penumbra
-            return fn(c[:3], s, rb, rs), True
+            if self.spec["type"] == "umbra":
+                return osh.umbra(c[:3], s, rb, rs), True
+            if self.wrong_angle:
+                return osh.penumbra(c[:3], s, rb, rs, umbra_half_angle=True), True
+            g = osh.penumbra(c[:3], s, rb, rs)
+            if self.skip_known_band and (g > 0) != (osh.penumbra(c[:3], s, rb, rs, umbra_half_angle=True) > 0):
+                # the sample lies between the true penumbra cone and the cone of the listed known
+                # finding: its intervals are not judged (returned as 'on the crossing')
+                return 0.0, True
+            return g, True
         if k == "terminator":
             c = cart_in(sv, None, self.native)
             s = sun_pos(sv, self.native)
@@ -819,29 +850,50 @@ def oracle_zero(g, source, start, us, half_s):
 
 
 def check_shadow(case):
+    import copy
+
+    from .. import findings
+
     items, stats, (source, native, listeners, specs, gs, sidx) = analyse(case, {"ordered"})
     what = describe(case)
     start, stop, step = grid(case)
     worst = 0.0
+    known = {}
     events = [it for it in items if it.label is not None and not it.dup]
-    for ev in events[:10]:
+    for ev in events[:12]:
         g = gs[ev.lis]
+        kind = f"shadow-{g.spec['type']}"
         tol = 0.01 if g.spec["type"] == "umbra" else 0.5
-        z = oracle_zero(g, source, start, ev.us, 4 * tol)
+        g.skip_known_band = False
+        z = oracle_zero(g, source, start, ev.us, 0.04 if g.spec["type"] == "umbra" else 5.0)
+        d = None if z is None else abs(z - ev.us) / 1e6
+        if d is not None and d <= tol:
+            worst = max(worst, d / tol)
+            continue
+        data = dict(type=g.spec["type"], event_s=ev.us / 1e6, off_cone=d)
+        if g.spec["type"] == "penumbra":
+            # distance to the zero of the cone a listed known finding describes (umbra half-angle)
+            gw = copy.copy(g)
+            gw.wrong_angle = True
+            zw = oracle_zero(gw, source, start, ev.us, 0.05)
+            data["off_wrong_angle"] = None if zw is None else abs(zw - ev.us) / 1e6
         if z is None:
-            raise Violation(f"shadow-{g.spec['type']}", f"{what}: '{ev.label}' at t = {ev.us / 1e6} s: the conical "
-                                                       f"{g.spec['type']} function has no zero within {4 * tol} s",
-                            type=g.spec["type"])
-        d = abs(z - ev.us) / 1e6
-        worst = max(worst, d / tol)
-        if d > tol:
-            raise Violation(f"shadow-{g.spec['type']}", f"{what}: '{ev.label}' at t = {ev.us / 1e6} s is {d:.4f} s from the zero "
-                                                       f"of the conical {g.spec['type']} function (tol {tol} s)",
-                            type=g.spec["type"])
+            msg = (f"{what}: '{ev.label}' at t = {ev.us / 1e6} s: the conical {g.spec['type']} function has no zero "
+                   f"within the search window")
+        else:
+            msg = (f"{what}: '{ev.label}' at t = {ev.us / 1e6} s is {d:.4f} s from the zero of the conical "
+                   f"{g.spec['type']} function (tol {tol} s)")
+        key = findings.match("C10", "shadow", case, kind, msg, data)
+        if key is None:
+            raise Violation(kind, msg, **data)
+        k = known.setdefault(key, dict(n=0, example=dict(kind=kind, msg=msg, data=data)))
+        k["n"] += 1
     cls = classes_of(case, stats)
     if "el" in case:
         cls.append("a>15000km" if case["el"]["a"] > 1.5e7 else "a<15000km")
-    return dict(nt=len(events) > 0, cls=cls, ratio=worst)
+    if known:
+        cls.append("known-finding-event")
+    return dict(nt=len(events) > 0, cls=cls, ratio=worst, known=known)
 
 
 # ------------------------------------------------------------------ visibility stream
